@@ -87,7 +87,7 @@ impl<T> Pull for Src<T> {
 pub struct FSrc<T>(Src<T>);
 
 impl<T> FSrc<T> {
-    fn new(s: Src<T>) -> Self {
+    pub fn new(s: Src<T>) -> Self {
         assert!(s.is_fused(), "bad case: a FusedPull input needs a fused script");
         FSrc(s)
     }
@@ -111,7 +111,7 @@ impl<T> Pull for FSrc<T> {
 
 impl<T> FusedPull for FSrc<T> {}
 
-fn parse_src<T>(v: &Value, item: fn(&Value) -> T) -> Src<T> {
+pub fn parse_src<T>(v: &Value, item: fn(&Value) -> T) -> Src<T> {
     let steps = v["s"]
         .as_array()
         .expect("script")
